@@ -1,10 +1,35 @@
 /-
-  C19 (first clause) — the term built through the `Var` interface.
+  C19 (first clause) — the term built through the variable and operator interface
+  (src/lax/var/var.rs `Var::new / new_source / new_target / build`, operators.rs `operation`;
+  model: Model/VarBuild.lean).
+
+  "A term built through the variable and operator interface contains one hyperedge per applied
+   operator, wired so that every use of a variable reads the value produced for it, with the declared
+   inputs and outputs as interfaces in order; variable edges uniformly labelled."
+
+  Organisation
+    Part 0  low-level abstract states `concH kinds log labs` and the closed form of the four
+            primitive builder calls on them;
+    Part A  abstract builder states `AS` (edge kinds, variable handles, node log), the invariant
+            `Good`, the symbolic execution `symStep`, and `build_sym`: the machine computes
+            `builtTerm`;
+    (`varBuildProg inLabels prog outs`: one input variable per entry of `inLabels`, carrying that
+     entry as its node label; `nIn := inLabels.length`.)
+    Part B  closed-form vocabulary (`varLabels`, `edgeLabels`, `varEdge`, `opEdge`, `nodeVars`,
+            `nodeIsSrc`, `nodeBase`, `varBase`), `WellScoped`, and the headline theorems
+              `build_ok`, `build_panics`, `build_ok_iff`   — the builder returns iff well scoped;
+              `build_shape`                                 — the full closed form of the result;
+              `node_unique_var_edge`, `node_atmost_one_op`, `var_edge_one_source`,
+              `var_edge_uniform`, `var_edge_labels`, `forget_replaces_var_edges`,
+              `varEdge_inj`, `opEdge_inj`, `varEdge_ne_opEdge`, `edge_cover`.
+    Part C  the boundary type of the built term (`built_type`) and `forget` applied to it
+            (`forget_built_ok_type`, through C12's typing theorem for `DynFunctor`).
 -/
 import OHVerif.Props.C19
 import OHVerif.Props.C11
 import OHVerif.Lemmas.LaxEdit
 import OHVerif.Model.VarBuild
+import OHVerif.Props.C12Type
 
 namespace OH.C19
 open OH OH.VarB OH.LaxEdit
@@ -483,24 +508,18 @@ theorem foldlM_prog (rest : List VarIns) (st : AS) (h : Good st) (s t : List Nat
 
 /-! ### the whole `build` -/
 
-def initState (nIn : Nat) : AS := AS.empty.addVars (List.replicate nIn 0)
-def progState (nIn : Nat) (prog : List VarIns) : AS := prog.foldl symStep (initState nIn)
-def finalState (nIn : Nat) (prog : List VarIns) (outs : List Nat) : AS :=
-  ((progState nIn prog).attach (List.range nIn) true).attach outs false
+def initState (inLabels : List Nat) : AS := AS.empty.addVars inLabels
+def progState (inLabels : List Nat) (prog : List VarIns) : AS := prog.foldl symStep (initState inLabels)
+def finalState (inLabels : List Nat) (prog : List VarIns) (outs : List Nat) : AS :=
+  ((progState inLabels prog).attach (List.range inLabels.length) true).attach outs false
 
 /-- number of nodes created while running the program -/
-def progNodes (nIn : Nat) (prog : List VarIns) : Nat := (progState nIn prog).log.length
+def progNodes (inLabels : List Nat) (prog : List VarIns) : Nat := (progState inLabels prog).log.length
 
 /-- the term `build` returns -/
-def builtTerm (nIn : Nat) (prog : List VarIns) (outs : List Nat) : LF :=
-  concF (finalState nIn prog outs) (List.range' (progNodes nIn prog) nIn)
-    (List.range' (progNodes nIn prog + nIn) outs.length)
-
-theorem foldl_range_const {β : Type} (g : β → Nat → β) (c : Nat) (n : Nat) (init : β) :
-    (List.range n).foldl (fun acc _ => g acc c) init = (List.replicate n c).foldl g init := by
-  induction n with
-  | zero => rfl
-  | succ n ih => rw [List.range_succ, List.foldl_append, ih, List.replicate_succ', List.foldl_append]; rfl
+def builtTerm (inLabels : List Nat) (prog : List VarIns) (outs : List Nat) : LF :=
+  concF (finalState inLabels prog outs) (List.range' (progNodes inLabels prog) inLabels.length)
+    (List.range' (progNodes inLabels prog + inLabels.length) outs.length)
 
 theorem foldl_symStep_vars (rest : List VarIns) (st : AS) :
     ∃ more, (rest.foldl symStep st).vars = st.vars ++ more := by
@@ -517,10 +536,10 @@ theorem eq_map_getD_prefix (vs more : List VarH) :
   intro i h1 h2
   simp [List.getD_eq_getElem?_getD, List.getElem?_append_left h1, List.getElem?_eq_getElem h1]
 
-theorem initState_vars_length (nIn : Nat) : (initState nIn).vars.length = nIn := by
+theorem initState_vars_length (inLabels : List Nat) : (initState inLabels).vars.length = inLabels.length := by
   simp [initState, AS.addVars, AS.empty]
 
-theorem good_init (nIn : Nat) : Good (initState nIn) := good_empty.addVars _
+theorem good_init (inLabels : List Nat) : Good (initState inLabels) := good_empty.addVars _
 
 def srcStep (acc : LF × List Nat) (v : VarH) : Res (LF × List Nat) := do
   let (f', n) ← varNewSource acc.1 v
@@ -537,58 +556,57 @@ def newStep (acc : LF × List VarH) (t : Nat) : LF × List VarH :=
 def progStep (acc : LF × List VarH) (ins : VarIns) : Res (LF × List VarH) := runVarIns acc.1 acc.2 ins
 
 /-- `varBuildProg` with the pattern matches replaced by projections and the loop bodies named -/
-theorem varBuildProg_eq (nIn : Nat) (prog : List VarIns) (outs : List Nat) :
-    varBuildProg nIn prog outs =
-      ((prog.foldlM progStep ((List.range nIn).foldl (fun acc _ => newStep acc 0) ((LOHG.empty : LF), []))) >>=
+theorem varBuildProg_eq (inLabels : List Nat) (prog : List VarIns) (outs : List Nat) :
+    varBuildProg inLabels prog outs =
+      ((prog.foldlM progStep (inLabels.foldl newStep ((LOHG.empty : LF), []))) >>=
         fun q => (outs.mapM (getVar q.2)) >>=
-        fun outv => (((List.range nIn).foldl (fun acc _ => newStep acc 0) ((LOHG.empty : LF), [])).2.foldlM
+        fun outv => ((inLabels.foldl newStep ((LOHG.empty : LF), [])).2.foldlM
             srcStep (q.1, [])) >>=
         fun r => (outv.foldlM tgtStep (({ r.1 with sources := r.2 } : LF), [])) >>=
         fun r2 => Res.ok ({ r2.1 with targets := r2.2 } : LF)) := rfl
 
-theorem build_sym (nIn : Nat) (prog : List VarIns) (outs : List Nat)
-    (hs : scopedFrom nIn prog = true) (ho : ∀ o ∈ outs, o < (progState nIn prog).vars.length) :
-    varBuildProg nIn prog outs = .ok (builtTerm nIn prog outs) ∧ Good (finalState nIn prog outs) := by
-  have e1 : (List.range nIn).foldl (fun acc _ => newStep acc 0) ((LOHG.empty : LF), []) =
-      (concF (initState nIn) [] [], (initState nIn).vars) := by
-    refine (foldl_range_const newStep 0 nIn _).trans ?_
+theorem build_sym (inLabels : List Nat) (prog : List VarIns) (outs : List Nat)
+    (hs : scopedFrom inLabels.length prog = true) (ho : ∀ o ∈ outs, o < (progState inLabels prog).vars.length) :
+    varBuildProg inLabels prog outs = .ok (builtTerm inLabels prog outs) ∧ Good (finalState inLabels prog outs) := by
+  have e1 : inLabels.foldl newStep ((LOHG.empty : LF), []) =
+      (concF (initState inLabels) [] [], (initState inLabels).vars) := by
     rw [← concF_empty]
     refine (foldl_varNew _ good_empty [] [] _ []).trans ?_
     simp [initState, AS.addVars, AS.empty]
-  have hs' : scopedFrom (initState nIn).vars.length prog = true := by
+  have hs' : scopedFrom (initState inLabels).vars.length prog = true := by
     rw [initState_vars_length]; exact hs
-  obtain ⟨e2, g2⟩ := foldlM_prog prog (initState nIn) (good_init nIn) [] [] hs'
-  replace e2 : prog.foldlM progStep (concF (initState nIn) [] [], (initState nIn).vars) =
-      .ok (concF (progState nIn prog) [] [], (progState nIn prog).vars) := e2
-  obtain ⟨more, hm⟩ := foldl_symStep_vars prog (initState nIn)
-  have e3 : (initState nIn).vars =
-      (List.range nIn).map (fun k => (progState nIn prog).vars.getD k dflt) := by
-    have := eq_map_getD_prefix (initState nIn).vars more
+  obtain ⟨e2, g2⟩ := foldlM_prog prog (initState inLabels) (good_init inLabels) [] [] hs'
+  replace e2 : prog.foldlM progStep (concF (initState inLabels) [] [], (initState inLabels).vars) =
+      .ok (concF (progState inLabels prog) [] [], (progState inLabels prog).vars) := e2
+  obtain ⟨more, hm⟩ := foldl_symStep_vars prog (initState inLabels)
+  have e3 : (initState inLabels).vars =
+      (List.range inLabels.length).map (fun k => (progState inLabels prog).vars.getD k dflt) := by
+    have := eq_map_getD_prefix (initState inLabels).vars more
     rw [initState_vars_length, ← hm] at this
     exact this
-  have hin : ∀ k ∈ List.range nIn, k < (progState nIn prog).vars.length := by
+  have hin : ∀ k ∈ List.range inLabels.length, k < (progState inLabels prog).vars.length := by
     intro k hk
     have := List.mem_range.1 hk
     unfold progState
     rw [hm, List.length_append, initState_vars_length]; omega
-  have g3 := g2.attach (List.range nIn) true hin
+  have g3 := g2.attach (List.range inLabels.length) true hin
   have g4 := g3.attach outs false ho
   refine ⟨?_, g4⟩
-  have e4 : (initState nIn).vars.foldlM srcStep (concF (progState nIn prog) [] [], []) =
-      .ok (concF ((progState nIn prog).attach (List.range nIn) true) [] [],
-        [] ++ List.range' (progState nIn prog).log.length (List.range nIn).length) := by
+  have e4 : (initState inLabels).vars.foldlM srcStep (concF (progState inLabels prog) [] [], []) =
+      .ok (concF ((progState inLabels prog).attach (List.range inLabels.length) true) [] [],
+        [] ++ List.range' (progState inLabels prog).log.length (List.range inLabels.length).length) := by
     rw [e3]
-    exact foldlM_attach_src (List.range nIn) (progState nIn prog) g2 [] [] [] hin
-  have e5 : ∀ s, (outs.map (fun k => (progState nIn prog).vars.getD k dflt)).foldlM tgtStep
-        (concF ((progState nIn prog).attach (List.range nIn) true) s [], []) =
-      .ok (concF (finalState nIn prog outs) s [],
-        [] ++ List.range' ((progState nIn prog).attach (List.range nIn) true).log.length outs.length) :=
-    fun s => foldlM_attach_tgt outs ((progState nIn prog).attach (List.range nIn) true) g3 s [] [] ho
+    exact foldlM_attach_src (List.range inLabels.length) (progState inLabels prog) g2 [] [] [] hin
+  have e5 : ∀ s, (outs.map (fun k => (progState inLabels prog).vars.getD k dflt)).foldlM tgtStep
+        (concF ((progState inLabels prog).attach (List.range inLabels.length) true) s [], []) =
+      .ok (concF (finalState inLabels prog outs) s [],
+        [] ++ List.range' ((progState inLabels prog).attach (List.range inLabels.length) true).log.length outs.length) :=
+    fun s => foldlM_attach_tgt outs ((progState inLabels prog).attach (List.range inLabels.length) true) g3 s [] [] ho
   rw [varBuildProg_eq, e1, e2, Res.ok_bind]
   simp only
   rw [mapM_getVar _ _ ho, Res.ok_bind, e4, Res.ok_bind]
-  have e6 : ∀ s, ({ concF ((progState nIn prog).attach (List.range nIn) true) [] [] with sources := s } : LF) =
-      concF ((progState nIn prog).attach (List.range nIn) true) s [] := fun _ => rfl
+  have e6 : ∀ s, ({ concF ((progState inLabels prog).attach (List.range inLabels.length) true) [] [] with sources := s } : LF) =
+      concF ((progState inLabels prog).attach (List.range inLabels.length) true) s [] := fun _ => rfl
   simp only [e6]
   rw [e5, Res.ok_bind]
   simp [builtTerm, concF, progNodes, AS.attach]
@@ -598,7 +616,7 @@ theorem build_sym (nIn : Nat) (prog : List VarIns) (outs : List Nat)
 /-- number of variables created by the instructions -/
 def numRes (prog : List VarIns) : Nat := (prog.map (fun i => (insRts i).length)).sum
 /-- total number of variables: the inputs, then every result of every instruction -/
-def numVars (nIn : Nat) (prog : List VarIns) : Nat := nIn + numRes prog
+def numVars (inLabels : List Nat) (prog : List VarIns) : Nat := inLabels.length + numRes prog
 /-- number of nodes created by the instructions: one per argument use and one per result -/
 def numProgNodes (prog : List VarIns) : Nat :=
   (prog.map (fun i => (insArgs i).length + (insRts i).length)).sum
@@ -606,11 +624,11 @@ def numProgNodes (prog : List VarIns) : Nat :=
 def numProgEdges (prog : List VarIns) : Nat := (prog.map (fun i => (insRts i).length + 1)).sum
 
 /-- label of variable `k` -/
-def varLabels (nIn : Nat) (prog : List VarIns) : List Nat := List.replicate nIn 0 ++ prog.flatMap insRts
+def varLabels (inLabels : List Nat) (prog : List VarIns) : List Nat := inLabels ++ prog.flatMap insRts
 
 /-- the edge labels, in creation order -/
-def edgeLabels (nIn : Nat) (prog : List VarIns) : List Nat :=
-  List.replicate nIn 99 ++
+def edgeLabels (inLabels : List Nat) (prog : List VarIns) : List Nat :=
+  List.replicate inLabels.length 99 ++
     prog.flatMap (fun ins => List.replicate (insRts ins).length 99 ++ [insLabel ins])
 
 /-- edge ids of the result variables of a program whose first edge gets id `eb` -/
@@ -619,17 +637,17 @@ def progVarEdges (eb : Nat) : List VarIns → List Nat
   | ins :: rest => List.range' eb (insRts ins).length ++ progVarEdges (eb + (insRts ins).length + 1) rest
 
 /-- edge id of every variable -/
-def varEdges (nIn : Nat) (prog : List VarIns) : List Nat := List.range nIn ++ progVarEdges nIn prog
-def varEdge (nIn : Nat) (prog : List VarIns) (k : Nat) : Nat := (varEdges nIn prog).getD k 0
+def varEdges (inLabels : List Nat) (prog : List VarIns) : List Nat := List.range inLabels.length ++ progVarEdges inLabels.length prog
+def varEdge (inLabels : List Nat) (prog : List VarIns) (k : Nat) : Nat := (varEdges inLabels prog).getD k 0
 
 /-- edge id of the operator edge of instruction `j` -/
-def opEdge (nIn : Nat) (prog : List VarIns) (j : Nat) : Nat :=
-  nIn + numProgEdges (prog.take j) + (prog[j]?.map (fun i => (insRts i).length)).getD 0
+def opEdge (inLabels : List Nat) (prog : List VarIns) (j : Nat) : Nat :=
+  inLabels.length + numProgEdges (prog.take j) + (prog[j]?.map (fun i => (insRts i).length)).getD 0
 
 /-- first node created by instruction `j` -/
 def nodeBase (prog : List VarIns) (j : Nat) : Nat := numProgNodes (prog.take j)
 /-- first variable created by instruction `j` -/
-def varBase (nIn : Nat) (prog : List VarIns) (j : Nat) : Nat := numVars nIn (prog.take j)
+def varBase (inLabels : List Nat) (prog : List VarIns) (j : Nat) : Nat := numVars inLabels (prog.take j)
 
 /-- for every node created by the program (first variable id `vb`): the variable it is attached to
     and the side (`false`: a use, pushed on the TARGETS of the variable edge; `true`: the
@@ -640,13 +658,13 @@ def progLog (vb : Nat) : List VarIns → List (Nat × Bool)
     (insArgs ins).map (fun k => (k, false)) ++ (List.range' vb (insRts ins).length).map (fun k => (k, true)) ++
       progLog (vb + (insRts ins).length) rest
 
-def fullLog (nIn : Nat) (prog : List VarIns) (outs : List Nat) : List (Nat × Bool) :=
-  progLog nIn prog ++ (List.range nIn).map (fun k => (k, true)) ++ outs.map (fun k => (k, false))
+def fullLog (inLabels : List Nat) (prog : List VarIns) (outs : List Nat) : List (Nat × Bool) :=
+  progLog inLabels.length prog ++ (List.range inLabels.length).map (fun k => (k, true)) ++ outs.map (fun k => (k, false))
 
 /-- the variable each node is attached to, in node-creation order -/
-def nodeVars (nIn : Nat) (prog : List VarIns) (outs : List Nat) : List Nat := (fullLog nIn prog outs).map (·.1)
+def nodeVars (inLabels : List Nat) (prog : List VarIns) (outs : List Nat) : List Nat := (fullLog inLabels prog outs).map (·.1)
 /-- whether the node was pushed on the SOURCES of its variable edge -/
-def nodeIsSrc (nIn : Nat) (prog : List VarIns) (outs : List Nat) : List Bool := (fullLog nIn prog outs).map (·.2)
+def nodeIsSrc (inLabels : List Nat) (prog : List VarIns) (outs : List Nat) : List Bool := (fullLog inLabels prog outs).map (·.2)
 
 def progKinds (nb : Nat) : List VarIns → List Kind
   | [] => []
@@ -698,27 +716,27 @@ theorem progKinds_length (nb : Nat) (prog : List VarIns) : (progKinds nb prog).l
   | nil => rfl
   | cons ins rest ih => simp [progKinds, numProgEdges_cons, ih]; omega
 
-theorem varEdges_length (nIn : Nat) (prog : List VarIns) : (varEdges nIn prog).length = numVars nIn prog := by
+theorem varEdges_length (inLabels : List Nat) (prog : List VarIns) : (varEdges inLabels prog).length = numVars inLabels prog := by
   simp [varEdges, numVars, progVarEdges_length]
 
-theorem varLabels_length (nIn : Nat) (prog : List VarIns) : (varLabels nIn prog).length = numVars nIn prog := by
-  simp only [varLabels, numVars, List.length_append, List.length_replicate, flatMap_rts_length]
+theorem varLabels_length (inLabels : List Nat) (prog : List VarIns) : (varLabels inLabels prog).length = numVars inLabels prog := by
+  simp only [varLabels, numVars, List.length_append, flatMap_rts_length]
 
 /-- the abstract state after the program -/
-theorem progState_eq (nIn : Nat) (prog : List VarIns) :
-    progState nIn prog =
-      ⟨List.replicate nIn (99, none) ++ progKinds 0 prog,
-       List.zipWith VarH.mk (varEdges nIn prog) (varLabels nIn prog),
-       progLog nIn prog⟩ := by
+theorem progState_eq (inLabels : List Nat) (prog : List VarIns) :
+    progState inLabels prog =
+      ⟨List.replicate inLabels.length (99, none) ++ progKinds 0 prog,
+       List.zipWith VarH.mk (varEdges inLabels prog) (varLabels inLabels prog),
+       progLog inLabels.length prog⟩ := by
   unfold progState
   rw [foldl_symStep_eq]
   simp [initState, AS.addVars, AS.empty, varEdges, varLabels, List.zipWith_append, List.range_eq_range']
 
-theorem progState_vars_length (nIn : Nat) (prog : List VarIns) :
-    (progState nIn prog).vars.length = numVars nIn prog := by
+theorem progState_vars_length (inLabels : List Nat) (prog : List VarIns) :
+    (progState inLabels prog).vars.length = numVars inLabels prog := by
   rw [progState_eq]; simp [varEdges_length, varLabels_length]
 
-theorem progNodes_eq (nIn : Nat) (prog : List VarIns) : progNodes nIn prog = numProgNodes prog := by
+theorem progNodes_eq (inLabels : List Nat) (prog : List VarIns) : progNodes inLabels prog = numProgNodes prog := by
   unfold progNodes; rw [progState_eq]; simp [progLog_length]
 
 theorem zipWith_mk_getD (es ls : List Nat) (h : es.length = ls.length) (k : Nat) :
@@ -731,32 +749,32 @@ theorem zipWith_mk_getD (es ls : List Nat) (h : es.length = ls.length) (k : Nat)
     simp [List.getElem?_eq_none (Nat.le_of_not_lt hk), List.getElem?_eq_none (Nat.le_of_not_lt hk'), dflt]
 
 /-- the handle of variable `k` -/
-theorem progState_var (nIn : Nat) (prog : List VarIns) (k : Nat) :
-    (progState nIn prog).vars.getD k dflt = ⟨varEdge nIn prog k, (varLabels nIn prog).getD k 0⟩ := by
+theorem progState_var (inLabels : List Nat) (prog : List VarIns) (k : Nat) :
+    (progState inLabels prog).vars.getD k dflt = ⟨varEdge inLabels prog k, (varLabels inLabels prog).getD k 0⟩ := by
   rw [progState_eq]
   exact zipWith_mk_getD _ _ (by rw [varEdges_length, varLabels_length]) k
 
-theorem finalState_eq (nIn : Nat) (prog : List VarIns) (outs : List Nat) :
-    finalState nIn prog outs =
-      ⟨List.replicate nIn (99, none) ++ progKinds 0 prog,
-       List.zipWith VarH.mk (varEdges nIn prog) (varLabels nIn prog),
-       fullLog nIn prog outs⟩ := by
+theorem finalState_eq (inLabels : List Nat) (prog : List VarIns) (outs : List Nat) :
+    finalState inLabels prog outs =
+      ⟨List.replicate inLabels.length (99, none) ++ progKinds 0 prog,
+       List.zipWith VarH.mk (varEdges inLabels prog) (varLabels inLabels prog),
+       fullLog inLabels prog outs⟩ := by
   unfold finalState
   rw [progState_eq]
   simp [AS.attach, fullLog]
 
-theorem finalState_vars (nIn : Nat) (prog : List VarIns) (outs : List Nat) :
-    (finalState nIn prog outs).vars = (progState nIn prog).vars := rfl
+theorem finalState_vars (inLabels : List Nat) (prog : List VarIns) (outs : List Nat) :
+    (finalState inLabels prog outs).vars = (progState inLabels prog).vars := rfl
 
-theorem finalState_elog (nIn : Nat) (prog : List VarIns) (outs : List Nat) :
-    (finalState nIn prog outs).elog = (fullLog nIn prog outs).map (fun x => (varEdge nIn prog x.1, x.2)) := by
+theorem finalState_elog (inLabels : List Nat) (prog : List VarIns) (outs : List Nat) :
+    (finalState inLabels prog outs).elog = (fullLog inLabels prog outs).map (fun x => (varEdge inLabels prog x.1, x.2)) := by
   unfold AS.elog
   rw [finalState_vars]
   simp only [progState_var]
   rw [finalState_eq]
 
-theorem finalState_labs (nIn : Nat) (prog : List VarIns) (outs : List Nat) :
-    (finalState nIn prog outs).labs = (fullLog nIn prog outs).map (fun x => (varLabels nIn prog).getD x.1 0) := by
+theorem finalState_labs (inLabels : List Nat) (prog : List VarIns) (outs : List Nat) :
+    (finalState inLabels prog outs).labs = (fullLog inLabels prog outs).map (fun x => (varLabels inLabels prog).getD x.1 0) := by
   unfold AS.labs
   rw [finalState_vars]
   simp only [progState_var]
@@ -766,15 +784,15 @@ theorem finalState_labs (nIn : Nat) (prog : List VarIns) (outs : List Nat) :
 
 /-- every argument of instruction `j` names a variable that exists when the instruction runs (an
     input or a result of an EARLIER instruction), and every output names an existing variable -/
-def WellScoped (nIn : Nat) (prog : List VarIns) (outs : List Nat) : Prop :=
-  (∀ j (h : j < prog.length), ∀ a ∈ insArgs prog[j], a < numVars nIn (prog.take j)) ∧
-  ∀ o ∈ outs, o < numVars nIn prog
+def WellScoped (inLabels : List Nat) (prog : List VarIns) (outs : List Nat) : Prop :=
+  (∀ j (h : j < prog.length), ∀ a ∈ insArgs prog[j], a < numVars inLabels (prog.take j)) ∧
+  ∀ o ∈ outs, o < numVars inLabels prog
 
-instance (nIn : Nat) (prog : List VarIns) (outs : List Nat) : Decidable (WellScoped nIn prog outs) := by
+instance (inLabels : List Nat) (prog : List VarIns) (outs : List Nat) : Decidable (WellScoped inLabels prog outs) := by
   unfold WellScoped; infer_instance
 
-def wellScopedB (nIn : Nat) (prog : List VarIns) (outs : List Nat) : Bool :=
-  scopedFrom nIn prog && outs.all (· < numVars nIn prog)
+def wellScopedB (inLabels : List Nat) (prog : List VarIns) (outs : List Nat) : Bool :=
+  scopedFrom inLabels.length prog && outs.all (· < numVars inLabels prog)
 
 theorem scopedFrom_iff (nv : Nat) (prog : List VarIns) :
     scopedFrom nv prog = true ↔
@@ -796,8 +814,8 @@ theorem scopedFrom_iff (nv : Nat) (prog : List VarIns) :
       · have := h (j + 1) (by simpa using hj) a (by simpa using ha)
         simp only [List.take_succ_cons, numRes_cons] at this; omega
 
-theorem wellScoped_iff (nIn : Nat) (prog : List VarIns) (outs : List Nat) :
-    WellScoped nIn prog outs ↔ wellScopedB nIn prog outs = true := by
+theorem wellScoped_iff (inLabels : List Nat) (prog : List VarIns) (outs : List Nat) :
+    WellScoped inLabels prog outs ↔ wellScopedB inLabels prog outs = true := by
   unfold WellScoped wellScopedB
   rw [Bool.and_eq_true, scopedFrom_iff, List.all_eq_true]
   constructor
@@ -842,16 +860,16 @@ theorem concF_wf (st : AS) (h : Good st) (s t : List Nat) (hs : ∀ v ∈ s, v <
 
 /-- **the builder never panics on a well-scoped program** (and returns `builtTerm`, a well-formed
     lax open hypergraph) -/
-theorem build_eq (nIn : Nat) (prog : List VarIns) (outs : List Nat) (h : WellScoped nIn prog outs) :
-    varBuildProg nIn prog outs = .ok (builtTerm nIn prog outs) ∧ Good (finalState nIn prog outs) ∧
-    (builtTerm nIn prog outs).wf = true := by
-  have hb := (wellScoped_iff nIn prog outs).1 h
+theorem build_eq (inLabels : List Nat) (prog : List VarIns) (outs : List Nat) (h : WellScoped inLabels prog outs) :
+    varBuildProg inLabels prog outs = .ok (builtTerm inLabels prog outs) ∧ Good (finalState inLabels prog outs) ∧
+    (builtTerm inLabels prog outs).wf = true := by
+  have hb := (wellScoped_iff inLabels prog outs).1 h
   simp only [wellScopedB, Bool.and_eq_true, List.all_eq_true, decide_eq_true_eq] at hb
-  have ho : ∀ o ∈ outs, o < (progState nIn prog).vars.length := by
+  have ho : ∀ o ∈ outs, o < (progState inLabels prog).vars.length := by
     rw [progState_vars_length]; exact hb.2
-  obtain ⟨h1, h2⟩ := build_sym nIn prog outs hb.1 ho
+  obtain ⟨h1, h2⟩ := build_sym inLabels prog outs hb.1 ho
   refine ⟨h1, h2, ?_⟩
-  have hlen : (finalState nIn prog outs).log.length = progNodes nIn prog + nIn + outs.length := by
+  have hlen : (finalState inLabels prog outs).log.length = progNodes inLabels prog + inLabels.length + outs.length := by
     simp [finalState, AS.attach, progNodes]; omega
   apply concF_wf _ h2
   · intro v hv
@@ -861,23 +879,110 @@ theorem build_eq (nIn : Nat) (prog : List VarIns) (outs : List Nat) (h : WellSco
     have := List.mem_range'_1.1 hv
     omega
 
-theorem build_ok (nIn : Nat) (prog : List VarIns) (outs : List Nat) (h : WellScoped nIn prog outs) :
-    ∃ t, varBuildProg nIn prog outs = .ok t ∧ t.wf = true :=
-  ⟨_, (build_eq nIn prog outs h).1, (build_eq nIn prog outs h).2.2⟩
+theorem build_ok (inLabels : List Nat) (prog : List VarIns) (outs : List Nat) (h : WellScoped inLabels prog outs) :
+    ∃ t, varBuildProg inLabels prog outs = .ok t ∧ t.wf = true :=
+  ⟨_, (build_eq inLabels prog outs h).1, (build_eq inLabels prog outs h).2.2⟩
 
-example : WellScoped 2 [.op 7 [0, 1] [5], .op 8 [2, 2] [6, 6]] [3, 0] := by decide
-example : wellScopedB 2 [.op 7 [0, 1] [5], .op 8 [2, 2] [6, 6]] [3, 0] = true := by decide
-example : ¬ WellScoped 2 [.op 7 [0, 2] [5]] [] := by decide
-example : varBuildProg 2 [.op 7 [0, 1] [5], .op 8 [2, 2] [6, 6]] [3, 0] =
+example : WellScoped [0, 1] [.op 7 [0, 1] [5], .op 8 [2, 2] [6, 6]] [3, 0] := by decide
+example : wellScopedB [0, 1] [.op 7 [0, 1] [5], .op 8 [2, 2] [6, 6]] [3, 0] = true := by decide
+example : ¬ WellScoped [0, 1] [.op 7 [0, 2] [5]] [] := by decide
+example : varBuildProg [0, 1] [.op 7 [0, 1] [5], .op 8 [2, 2] [6, 6]] [3, 0] =
     .ok ⟨[7, 8], [9, 10],
-      ⟨[0, 0, 5, 5, 5, 6, 6, 0, 0, 6, 0], [99, 99, 99, 7, 99, 99, 8],
+      ⟨[0, 1, 5, 5, 5, 6, 6, 0, 1, 6, 0], [99, 99, 99, 7, 99, 99, 8],
        [⟨[7], [0, 10]⟩, ⟨[8], [1]⟩, ⟨[2], [3, 4]⟩, ⟨[0, 1], [2]⟩, ⟨[5], [9]⟩, ⟨[6], []⟩, ⟨[3, 4], [5, 6]⟩],
        ([], [])⟩⟩ := by decide
+
+/-! ### ill-scoped programs panic -/
+
+theorem mapM_getVar_fail (vars : List VarH) (args : List Nat) (h : ¬ ∀ a ∈ args, a < vars.length) :
+    args.mapM (getVar vars) = .panic "var:index" := by
+  induction args with
+  | nil => exact absurd (by simp) h
+  | cons a args ih =>
+    rw [List.mapM_cons]
+    by_cases ha : a < vars.length
+    · have hrest : ¬ ∀ b ∈ args, b < vars.length := by
+        intro hc; apply h; intro b hb
+        rcases List.mem_cons.1 hb with rfl | hb
+        · exact ha
+        · exact hc b hb
+      rw [ih hrest]
+      simp [getVar, Res.ofOption, List.getElem?_eq_getElem ha]
+    · simp [getVar, Res.ofOption, List.getElem?_eq_none (Nat.le_of_not_lt ha)]
+
+theorem foldlM_prog_fail (rest : List VarIns) (st : AS) (h : Good st) (s t : List Nat)
+    (hs : scopedFrom st.vars.length rest = false) :
+    rest.foldlM progStep (concF st s t, st.vars) = .panic "var:index" := by
+  induction rest generalizing st with
+  | nil => simp [scopedFrom] at hs
+  | cons ins rest ih =>
+    rw [List.foldlM_cons]
+    by_cases hargs : ∀ a ∈ insArgs ins, a < st.vars.length
+    · have h1 : progStep (concF st s t, st.vars) ins =
+          .ok (concF (symStep st ins) s t, (symStep st ins).vars) := runVarIns_sym st h s t ins hargs
+      rw [h1, Res.ok_bind]
+      apply ih _ (symStep_good st h ins hargs)
+      rw [symStep_vars_length]
+      have hall : (insArgs ins).all (· < st.vars.length) = true := by
+        rw [List.all_eq_true]; intro a ha; exact decide_eq_true (hargs a ha)
+      simp only [scopedFrom, hall, Bool.true_and] at hs
+      exact hs
+    · have h1 : progStep (concF st s t, st.vars) ins = .panic "var:index" := by
+        cases ins with
+        | op label args rts =>
+          have hargs' : ¬ ∀ a ∈ args, a < st.vars.length := hargs
+          unfold progStep runVarIns
+          simp only
+          rw [mapM_getVar_fail _ _ hargs', Res.panic_bind]
+      rw [h1, Res.panic_bind]
+
+/-- **exact panic condition of the builder**: an ill-scoped program (an argument naming a variable
+    that does not exist yet, or an output naming a variable that does not exist) makes the handle
+    lookup panic -/
+theorem build_panics (inLabels : List Nat) (prog : List VarIns) (outs : List Nat) (h : ¬ WellScoped inLabels prog outs) :
+    varBuildProg inLabels prog outs = .panic "var:index" := by
+  have e1 : inLabels.foldl newStep ((LOHG.empty : LF), []) =
+      (concF (initState inLabels) [] [], (initState inLabels).vars) := by
+    rw [← concF_empty]
+    refine (foldl_varNew _ good_empty [] [] _ []).trans ?_
+    simp [initState, AS.addVars, AS.empty]
+  rw [varBuildProg_eq, e1]
+  by_cases hs : scopedFrom inLabels.length prog = true
+  · have hs' : scopedFrom (initState inLabels).vars.length prog = true := by
+      rw [initState_vars_length]; exact hs
+    obtain ⟨e2, _⟩ := foldlM_prog prog (initState inLabels) (good_init inLabels) [] [] hs'
+    replace e2 : prog.foldlM progStep (concF (initState inLabels) [] [], (initState inLabels).vars) =
+        .ok (concF (progState inLabels prog) [] [], (progState inLabels prog).vars) := e2
+    rw [e2, Res.ok_bind]
+    simp only
+    have ho : ¬ ∀ o ∈ outs, o < (progState inLabels prog).vars.length := by
+      rw [progState_vars_length]
+      intro hc
+      apply h
+      rw [wellScoped_iff]
+      simp only [wellScopedB, hs, Bool.true_and, List.all_eq_true]
+      intro x hx; exact decide_eq_true (hc x hx)
+    rw [mapM_getVar_fail _ _ ho, Res.panic_bind]
+  · have hs' : scopedFrom (initState inLabels).vars.length prog = false := by
+      rw [initState_vars_length]; simpa using hs
+    rw [foldlM_prog_fail prog (initState inLabels) (good_init inLabels) [] [] hs', Res.panic_bind]
+
+/-- the builder returns iff the program is well scoped -/
+theorem build_ok_iff (inLabels : List Nat) (prog : List VarIns) (outs : List Nat) :
+    (∃ t, varBuildProg inLabels prog outs = .ok t) ↔ WellScoped inLabels prog outs := by
+  constructor
+  · rintro ⟨t, ht⟩
+    apply Classical.byContradiction
+    intro hn
+    rw [build_panics inLabels prog outs hn] at ht
+    cases ht
+  · intro h
+    exact ⟨_, (build_eq inLabels prog outs h).1⟩
 
 /-! ## the shape of the built term -/
 
 section shape
-variable (nIn : Nat) (prog : List VarIns) (outs : List Nat)
+variable (inLabels : List Nat) (prog : List VarIns) (outs : List Nat)
 
 theorem progKinds_labels (nb : Nat) (prog : List VarIns) :
     (progKinds nb prog).map (·.1) =
@@ -888,11 +993,11 @@ theorem progKinds_labels (nb : Nat) (prog : List VarIns) :
 
 /-- (edges) one edge labelled 99 per variable and one edge per applied operator, interleaved in
     creation order -/
-theorem built_edges : (builtTerm nIn prog outs).hypergraph.edges = edgeLabels nIn prog := by
+theorem built_edges : (builtTerm inLabels prog outs).hypergraph.edges = edgeLabels inLabels prog := by
   simp [builtTerm, concF, concH, finalState_eq, edgeLabels, progKinds_labels]
 
 theorem built_edges_length :
-    (builtTerm nIn prog outs).hypergraph.edges.length = numVars nIn prog + prog.length := by
+    (builtTerm inLabels prog outs).hypergraph.edges.length = numVars inLabels prog + prog.length := by
   simp only [builtTerm, concF, concH, finalState_eq, List.length_map, List.length_append,
     List.length_replicate, progKinds_length, numVars]
   have : ∀ p : List VarIns, numProgEdges p = numRes p + p.length := by
@@ -904,33 +1009,33 @@ theorem built_edges_length :
 
 /-- (nodes) one node per use and per definition, labelled like its variable -/
 theorem built_nodes :
-    (builtTerm nIn prog outs).hypergraph.nodes =
-      (nodeVars nIn prog outs).map (fun k => (varLabels nIn prog).getD k 0) := by
-  show (finalState nIn prog outs).labs = _
+    (builtTerm inLabels prog outs).hypergraph.nodes =
+      (nodeVars inLabels prog outs).map (fun k => (varLabels inLabels prog).getD k 0) := by
+  show (finalState inLabels prog outs).labs = _
   rw [finalState_labs, nodeVars, List.map_map]
   rfl
 
-theorem fullLog_length : (fullLog nIn prog outs).length = numProgNodes prog + nIn + outs.length := by
+theorem fullLog_length : (fullLog inLabels prog outs).length = numProgNodes prog + inLabels.length + outs.length := by
   simp [fullLog, progLog_length]; omega
 
 /-- number of nodes = number of uses + number of definitions -/
 theorem built_nodes_length :
-    (builtTerm nIn prog outs).hypergraph.nodes.length = numProgNodes prog + nIn + outs.length := by
+    (builtTerm inLabels prog outs).hypergraph.nodes.length = numProgNodes prog + inLabels.length + outs.length := by
   rw [built_nodes, List.length_map, nodeVars, List.length_map, fullLog_length]
 
-/-- (interfaces) the declared inputs and outputs in order: the last `nIn + |outs|` nodes -/
-theorem built_sources : (builtTerm nIn prog outs).sources = List.range' (numProgNodes prog) nIn := by
+/-- (interfaces) the declared inputs and outputs in order: the last `inLabels.length + |outs|` nodes -/
+theorem built_sources : (builtTerm inLabels prog outs).sources = List.range' (numProgNodes prog) inLabels.length := by
   simp [builtTerm, concF, progNodes_eq]
 
 theorem built_targets :
-    (builtTerm nIn prog outs).targets = List.range' (numProgNodes prog + nIn) outs.length := by
+    (builtTerm inLabels prog outs).targets = List.range' (numProgNodes prog + inLabels.length) outs.length := by
   simp [builtTerm, concF, progNodes_eq]
 
-theorem built_quotient : (builtTerm nIn prog outs).hypergraph.quotient = ([], []) := rfl
+theorem built_quotient : (builtTerm inLabels prog outs).hypergraph.quotient = ([], []) := rfl
 
 /-- the `k`-th source node is attached, on the SOURCE side, to input variable `k` -/
-theorem fullLog_source (k : Nat) (hk : k < nIn) :
-    (fullLog nIn prog outs)[numProgNodes prog + k]? = some (k, true) := by
+theorem fullLog_source (k : Nat) (hk : k < inLabels.length) :
+    (fullLog inLabels prog outs)[numProgNodes prog + k]? = some (k, true) := by
   unfold fullLog
   rw [List.append_assoc, List.getElem?_append_right (by rw [progLog_length]; omega), progLog_length,
     Nat.add_sub_cancel_left, List.getElem?_append_left (by simpa using hk)]
@@ -938,7 +1043,7 @@ theorem fullLog_source (k : Nat) (hk : k < nIn) :
 
 /-- the `i`-th target node is attached, on the TARGET side, to variable `outs[i]` -/
 theorem fullLog_target (i : Nat) (hi : i < outs.length) :
-    (fullLog nIn prog outs)[numProgNodes prog + nIn + i]? = some (outs[i], false) := by
+    (fullLog inLabels prog outs)[numProgNodes prog + inLabels.length + i]? = some (outs[i], false) := by
   unfold fullLog
   rw [List.getElem?_append_right (by simp [progLog_length])]
   simp [progLog_length, hi]
@@ -965,24 +1070,24 @@ theorem progVarEdges_props (eb : Nat) (prog : List VarIns) :
       · have := h2 e he; omega
 
 /-- variable edge ids are strictly increasing in the variable index -/
-theorem varEdges_pairwise : (varEdges nIn prog).Pairwise (· < ·) := by
+theorem varEdges_pairwise : (varEdges inLabels prog).Pairwise (· < ·) := by
   unfold varEdges
   rw [List.pairwise_append]
-  refine ⟨List.pairwise_lt_range, (progVarEdges_props nIn prog).1, ?_⟩
+  refine ⟨List.pairwise_lt_range, (progVarEdges_props inLabels.length prog).1, ?_⟩
   intro a ha b hb
   have := List.mem_range.1 ha
-  have := (progVarEdges_props nIn prog).2 b hb
+  have := (progVarEdges_props inLabels.length prog).2 b hb
   omega
 
-theorem varEdges_nodup : (varEdges nIn prog).Nodup :=
-  (varEdges_pairwise nIn prog).imp (fun h => Nat.ne_of_lt h)
+theorem varEdges_nodup : (varEdges inLabels prog).Nodup :=
+  (varEdges_pairwise inLabels prog).imp (fun h => Nat.ne_of_lt h)
 
 /-- distinct variables have distinct edges -/
-theorem varEdge_inj {k k' : Nat} (hk : k < numVars nIn prog) (hk' : k' < numVars nIn prog)
-    (h : varEdge nIn prog k = varEdge nIn prog k') : k = k' := by
-  have h1 : k < (varEdges nIn prog).length := by rw [varEdges_length]; exact hk
-  have h2 : k' < (varEdges nIn prog).length := by rw [varEdges_length]; exact hk'
-  apply (List.getElem?_inj h1 (varEdges_nodup nIn prog)).1
+theorem varEdge_inj {k k' : Nat} (hk : k < numVars inLabels prog) (hk' : k' < numVars inLabels prog)
+    (h : varEdge inLabels prog k = varEdge inLabels prog k') : k = k' := by
+  have h1 : k < (varEdges inLabels prog).length := by rw [varEdges_length]; exact hk
+  have h2 : k' < (varEdges inLabels prog).length := by rw [varEdges_length]; exact hk'
+  apply (List.getElem?_inj h1 (varEdges_nodup inLabels prog)).1
   unfold varEdge at h
   rw [List.getD_eq_getElem?_getD, List.getD_eq_getElem?_getD, List.getElem?_eq_getElem h1,
     List.getElem?_eq_getElem h2] at h
@@ -1023,37 +1128,37 @@ theorem pos_pairwise (log : List (Nat × Bool)) (k : Nat) (b : Bool) : (pos log 
 
 /-- `pos` in terms of `nodeVars` / `nodeIsSrc` -/
 theorem pos_fullLog (k : Nat) (b : Bool) :
-    pos (fullLog nIn prog outs) k b =
-      (List.range (nodeVars nIn prog outs).length).filter (fun n =>
-        decide ((nodeVars nIn prog outs)[n]? = some k ∧ (nodeIsSrc nIn prog outs)[n]? = some b)) := by
+    pos (fullLog inLabels prog outs) k b =
+      (List.range (nodeVars inLabels prog outs).length).filter (fun n =>
+        decide ((nodeVars inLabels prog outs)[n]? = some k ∧ (nodeIsSrc inLabels prog outs)[n]? = some b)) := by
   unfold pos nodeVars nodeIsSrc
   rw [List.length_map]
   apply List.filter_congr
   intro n _
   simp only [List.getElem?_map]
-  cases (fullLog nIn prog outs)[n]? with
+  cases (fullLog inLabels prog outs)[n]? with
   | none => simp
   | some x => obtain ⟨x1, x2⟩ := x; simp
 
-theorem fullLog_inScope (h : WellScoped nIn prog outs) :
-    ∀ x ∈ fullLog nIn prog outs, x.1 < numVars nIn prog := by
-  have hg := (build_eq nIn prog outs h).2.1
+theorem fullLog_inScope (h : WellScoped inLabels prog outs) :
+    ∀ x ∈ fullLog inLabels prog outs, x.1 < numVars inLabels prog := by
+  have hg := (build_eq inLabels prog outs h).2.1
   intro x hx
   have := hg.inScope x (by rw [finalState_eq]; exact hx)
   rwa [finalState_vars, progState_vars_length] at this
 
-theorem nodeVars_inScope (h : WellScoped nIn prog outs) :
-    ∀ k ∈ nodeVars nIn prog outs, k < numVars nIn prog := by
+theorem nodeVars_inScope (h : WellScoped inLabels prog outs) :
+    ∀ k ∈ nodeVars inLabels prog outs, k < numVars inLabels prog := by
   intro k hk
   obtain ⟨x, hx, rfl⟩ := List.mem_map.1 hk
-  exact fullLog_inScope nIn prog outs h x hx
+  exact fullLog_inScope inLabels prog outs h x hx
 
 /-- the edge of variable `k` is labelled 99 -/
-theorem built_var_edge_label (h : WellScoped nIn prog outs) (k : Nat) (hk : k < numVars nIn prog) :
-    (builtTerm nIn prog outs).hypergraph.edges[varEdge nIn prog k]? = some 99 ∧
-    (finalState nIn prog outs).kinds[varEdge nIn prog k]? = some (99, none) := by
-  have hg := (build_eq nIn prog outs h).2.1
-  have hm : (progState nIn prog).vars.getD k dflt ∈ (finalState nIn prog outs).vars := by
+theorem built_var_edge_label (h : WellScoped inLabels prog outs) (k : Nat) (hk : k < numVars inLabels prog) :
+    (builtTerm inLabels prog outs).hypergraph.edges[varEdge inLabels prog k]? = some 99 ∧
+    (finalState inLabels prog outs).kinds[varEdge inLabels prog k]? = some (99, none) := by
+  have hg := (build_eq inLabels prog outs h).2.1
+  have hm : (progState inLabels prog).vars.getD k dflt ∈ (finalState inLabels prog outs).vars := by
     rw [finalState_vars, List.getD_eq_getElem?_getD,
       List.getElem?_eq_getElem (by rw [progState_vars_length]; exact hk)]
     simp
@@ -1067,16 +1172,16 @@ theorem built_var_edge_label (h : WellScoped nIn prog outs) (k : Nat) (hk : k < 
 /-- (variable edges) the edge of variable `k` has as sources exactly the nodes attached to `k` on the
     source side and as targets exactly the nodes attached to `k` on the target side, in increasing
     order -/
-theorem built_var_adjacency (h : WellScoped nIn prog outs) (k : Nat) (hk : k < numVars nIn prog) :
-    (builtTerm nIn prog outs).hypergraph.adjacency[varEdge nIn prog k]? =
-      some ⟨pos (fullLog nIn prog outs) k true, pos (fullLog nIn prog outs) k false⟩ := by
-  have h1 := (built_var_edge_label nIn prog outs h k hk).2
+theorem built_var_adjacency (h : WellScoped inLabels prog outs) (k : Nat) (hk : k < numVars inLabels prog) :
+    (builtTerm inLabels prog outs).hypergraph.adjacency[varEdge inLabels prog k]? =
+      some ⟨pos (fullLog inLabels prog outs) k true, pos (fullLog inLabels prog outs) k false⟩ := by
+  have h1 := (built_var_edge_label inLabels prog outs h k hk).2
   show (concH _ _ _).adjacency[_]? = _
   rw [concH_adj_getElem?, h1, finalState_elog]
-  have hinj : ∀ x ∈ fullLog nIn prog outs, varEdge nIn prog x.1 = varEdge nIn prog k → x.1 = k :=
-    fun x hx he => varEdge_inj nIn prog (fullLog_inScope nIn prog outs h x hx) hk he
+  have hinj : ∀ x ∈ fullLog inLabels prog outs, varEdge inLabels prog x.1 = varEdge inLabels prog k → x.1 = k :=
+    fun x hx he => varEdge_inj inLabels prog (fullLog_inScope inLabels prog outs h x hx) hk he
   simp only [Option.map_some, adjEntry]
-  rw [pos_map_inj _ (varEdge nIn prog) k true hinj, pos_map_inj _ (varEdge nIn prog) k false hinj]
+  rw [pos_map_inj _ (varEdge inLabels prog) k true hinj, pos_map_inj _ (varEdge inLabels prog) k false hinj]
 
 /-! ### operator edges -/
 
@@ -1108,14 +1213,14 @@ theorem prog_split (j : Nat) (hj : j < prog.length) :
   rw [List.getElem_cons_drop, List.take_append_drop]
 
 theorem opEdge_eq (j : Nat) (hj : j < prog.length) :
-    opEdge nIn prog j = nIn + numProgEdges (prog.take j) + (insRts prog[j]).length := by
+    opEdge inLabels prog j = inLabels.length + numProgEdges (prog.take j) + (insRts prog[j]).length := by
   simp [opEdge, List.getElem?_eq_getElem hj]
 
 theorem kinds_opEdge (j : Nat) (hj : j < prog.length) :
-    (List.replicate nIn ((99, none) : Kind) ++ progKinds 0 prog)[opEdge nIn prog j]? =
+    (List.replicate inLabels.length ((99, none) : Kind) ++ progKinds 0 prog)[opEdge inLabels prog j]? =
       some (insLabel prog[j], some ⟨List.range' (nodeBase prog j) (insArgs prog[j]).length,
         List.range' (nodeBase prog j + (insArgs prog[j]).length) (insRts prog[j]).length⟩) := by
-  rw [opEdge_eq nIn prog j hj]
+  rw [opEdge_eq inLabels prog j hj]
   conv => lhs; arg 1; arg 2; rw [prog_split prog j hj]
   rw [progKinds_append]
   simp only [progKinds, Nat.zero_add, nodeBase]
@@ -1123,7 +1228,7 @@ theorem kinds_opEdge (j : Nat) (hj : j < prog.length) :
   rw [List.getElem?_append_right (by simp [progKinds_length]; omega)]
   rw [List.append_assoc, List.getElem?_append_right (by simp [progKinds_length]; omega)]
   simp [progKinds_length]
-  have : nIn + numProgEdges (List.take j prog) + (insRts prog[j]).length - nIn -
+  have : inLabels.length + numProgEdges (List.take j prog) + (insRts prog[j]).length - inLabels.length -
       numProgEdges (List.take j prog) - (insRts prog[j]).length = 0 := by omega
   rw [this]
   rfl
@@ -1132,11 +1237,11 @@ theorem kinds_opEdge (j : Nat) (hj : j < prog.length) :
     `|args_j|` nodes created for its argument uses and its targets the `|rts_j|` nodes created for
     its results, in order -/
 theorem built_op_adjacency (j : Nat) (hj : j < prog.length) :
-    (builtTerm nIn prog outs).hypergraph.edges[opEdge nIn prog j]? = some (insLabel prog[j]) ∧
-    (builtTerm nIn prog outs).hypergraph.adjacency[opEdge nIn prog j]? =
+    (builtTerm inLabels prog outs).hypergraph.edges[opEdge inLabels prog j]? = some (insLabel prog[j]) ∧
+    (builtTerm inLabels prog outs).hypergraph.adjacency[opEdge inLabels prog j]? =
       some ⟨List.range' (nodeBase prog j) (insArgs prog[j]).length,
             List.range' (nodeBase prog j + (insArgs prog[j]).length) (insRts prog[j]).length⟩ := by
-  have hk := kinds_opEdge nIn prog j hj
+  have hk := kinds_opEdge inLabels prog j hj
   constructor
   · simp only [builtTerm, concF, concH, finalState_eq, List.getElem?_map, hk]; rfl
   · show (concH _ _ _).adjacency[_]? = _
@@ -1146,7 +1251,7 @@ theorem built_op_adjacency (j : Nat) (hj : j < prog.length) :
 /-- the `i`-th source node of operator `j` is attached, on the TARGET side (a use), to the variable
     `args_j[i]` -/
 theorem fullLog_arg (j : Nat) (hj : j < prog.length) (i : Nat) (hi : i < (insArgs prog[j]).length) :
-    (fullLog nIn prog outs)[nodeBase prog j + i]? = some ((insArgs prog[j])[i], false) := by
+    (fullLog inLabels prog outs)[nodeBase prog j + i]? = some ((insArgs prog[j])[i], false) := by
   unfold fullLog nodeBase
   rw [List.append_assoc]
   conv => lhs; arg 1; arg 1; rw [prog_split prog j hj]
@@ -1159,8 +1264,8 @@ theorem fullLog_arg (j : Nat) (hj : j < prog.length) (i : Nat) (hi : i < (insArg
 /-- the `r`-th target node of operator `j` is attached, on the SOURCE side (the definition), to the
     `r`-th result variable of instruction `j` -/
 theorem fullLog_res (j : Nat) (hj : j < prog.length) (r : Nat) (hr : r < (insRts prog[j]).length) :
-    (fullLog nIn prog outs)[nodeBase prog j + (insArgs prog[j]).length + r]? =
-      some (varBase nIn prog j + r, true) := by
+    (fullLog inLabels prog outs)[nodeBase prog j + (insArgs prog[j]).length + r]? =
+      some (varBase inLabels prog j + r, true) := by
   unfold fullLog nodeBase varBase numVars
   rw [List.append_assoc]
   conv => lhs; arg 1; arg 1; rw [prog_split prog j hj]
@@ -1203,18 +1308,18 @@ theorem edge_cover_aux (eb : Nat) (prog : List VarIns) (e : Nat) (h1 : eb ≤ e)
           omega
 
 /-- every edge of the built term is the edge of a variable or the edge of an instruction -/
-theorem edge_cover (e : Nat) (he : e < (builtTerm nIn prog outs).hypergraph.edges.length) :
-    (∃ k, k < numVars nIn prog ∧ varEdge nIn prog k = e) ∨
-    (∃ j, j < prog.length ∧ opEdge nIn prog j = e) := by
-  have hlen : (builtTerm nIn prog outs).hypergraph.edges.length = nIn + numProgEdges prog := by
+theorem edge_cover (e : Nat) (he : e < (builtTerm inLabels prog outs).hypergraph.edges.length) :
+    (∃ k, k < numVars inLabels prog ∧ varEdge inLabels prog k = e) ∨
+    (∃ j, j < prog.length ∧ opEdge inLabels prog j = e) := by
+  have hlen : (builtTerm inLabels prog outs).hypergraph.edges.length = inLabels.length + numProgEdges prog := by
     simp [builtTerm, concF, concH, finalState_eq, progKinds_length]
   rw [hlen] at he
-  have key : e ∈ varEdges nIn prog ∨ ∃ j, j < prog.length ∧ opEdge nIn prog j = e := by
-    by_cases h0 : e < nIn
+  have key : e ∈ varEdges inLabels prog ∨ ∃ j, j < prog.length ∧ opEdge inLabels prog j = e := by
+    by_cases h0 : e < inLabels.length
     · left; unfold varEdges; exact List.mem_append_left _ (List.mem_range.2 h0)
-    · rcases edge_cover_aux nIn prog e (by omega) he with hm | ⟨j, hj, hjeq⟩
+    · rcases edge_cover_aux inLabels.length prog e (by omega) he with hm | ⟨j, hj, hjeq⟩
       · left; unfold varEdges; exact List.mem_append_right _ hm
-      · right; exact ⟨j, hj, by rw [opEdge_eq nIn prog j hj, hjeq]⟩
+      · right; exact ⟨j, hj, by rw [opEdge_eq inLabels prog j hj, hjeq]⟩
   rcases key with hm | hop
   · left
     obtain ⟨k, hk, hke⟩ := List.getElem_of_mem hm
@@ -1225,11 +1330,11 @@ theorem edge_cover (e : Nat) (he : e < (builtTerm nIn prog outs).hypergraph.edge
   · exact Or.inr hop
 
 /-- a variable edge is never the edge of an instruction (even when the instruction is labelled 99) -/
-theorem varEdge_ne_opEdge (h : WellScoped nIn prog outs) (k : Nat) (hk : k < numVars nIn prog)
-    (j : Nat) (hj : j < prog.length) : varEdge nIn prog k ≠ opEdge nIn prog j := by
+theorem varEdge_ne_opEdge (h : WellScoped inLabels prog outs) (k : Nat) (hk : k < numVars inLabels prog)
+    (j : Nat) (hj : j < prog.length) : varEdge inLabels prog k ≠ opEdge inLabels prog j := by
   intro he
-  have h1 := (built_var_edge_label nIn prog outs h k hk).2
-  have h2 := kinds_opEdge nIn prog j hj
+  have h1 := (built_var_edge_label inLabels prog outs h k hk).2
+  have h2 := kinds_opEdge inLabels prog j hj
   rw [finalState_eq, he] at h1
   simp only at h1
   rw [h2] at h1
@@ -1286,11 +1391,11 @@ theorem nodeBase_succ (j : Nat) (hj : j < prog.length) :
 
 /-- distinct instructions have distinct edges -/
 theorem opEdge_inj {j j' : Nat} (hj : j < prog.length) (hj' : j' < prog.length)
-    (h : opEdge nIn prog j = opEdge nIn prog j') : j = j' := by
-  have key : ∀ a b, a < b → (hb : b < prog.length) → opEdge nIn prog a < opEdge nIn prog b := by
+    (h : opEdge inLabels prog j = opEdge inLabels prog j') : j = j' := by
+  have key : ∀ a b, a < b → (hb : b < prog.length) → opEdge inLabels prog a < opEdge inLabels prog b := by
     intro a b hab hb
     have ha : a < prog.length := by omega
-    rw [opEdge_eq nIn prog a ha, opEdge_eq nIn prog b hb]
+    rw [opEdge_eq inLabels prog a ha, opEdge_eq inLabels prog b hb]
     have h1 := numProgEdges_take_mono prog (j := a + 1) (j' := b) hab
     have hs : numProgEdges [prog[a]] = (insRts prog[a]).length + 1 := by simp [numProgEdges]
     rw [take_succ_eq prog a ha, numProgEdges_append, hs] at h1
@@ -1310,22 +1415,22 @@ theorem count_pos (log : List (Nat × Bool)) (k : Nat) (b : Bool) (n : Nat) :
 /-- every node is incident to exactly one variable edge, on exactly one side, exactly once: node `n`
     occurs once in the side `nodeIsSrc[n]` of the edge of `nodeVars[n]` and nowhere else in any
     variable edge -/
-theorem node_unique_var_edge (h : WellScoped nIn prog outs) (n : Nat)
-    (hn : n < (builtTerm nIn prog outs).hypergraph.nodes.length) :
-    ∃ k b, k < numVars nIn prog ∧ (nodeVars nIn prog outs)[n]? = some k ∧
-      (nodeIsSrc nIn prog outs)[n]? = some b ∧
-      ∀ k', k' < numVars nIn prog → ∀ ed,
-        (builtTerm nIn prog outs).hypergraph.adjacency[varEdge nIn prog k']? = some ed →
+theorem node_unique_var_edge (h : WellScoped inLabels prog outs) (n : Nat)
+    (hn : n < (builtTerm inLabels prog outs).hypergraph.nodes.length) :
+    ∃ k b, k < numVars inLabels prog ∧ (nodeVars inLabels prog outs)[n]? = some k ∧
+      (nodeIsSrc inLabels prog outs)[n]? = some b ∧
+      ∀ k', k' < numVars inLabels prog → ∀ ed,
+        (builtTerm inLabels prog outs).hypergraph.adjacency[varEdge inLabels prog k']? = some ed →
         ed.sources.count n = (if k' = k ∧ b = true then 1 else 0) ∧
         ed.targets.count n = (if k' = k ∧ b = false then 1 else 0) := by
-  rw [built_nodes_length, ← fullLog_length nIn prog outs] at hn
-  have hx : (fullLog nIn prog outs)[n]? = some (fullLog nIn prog outs)[n] := List.getElem?_eq_getElem hn
-  rcases hxx : (fullLog nIn prog outs)[n] with ⟨k, b⟩
+  rw [built_nodes_length, ← fullLog_length inLabels prog outs] at hn
+  have hx : (fullLog inLabels prog outs)[n]? = some (fullLog inLabels prog outs)[n] := List.getElem?_eq_getElem hn
+  rcases hxx : (fullLog inLabels prog outs)[n] with ⟨k, b⟩
   rw [hxx] at hx
-  have hk : k < numVars nIn prog := fullLog_inScope nIn prog outs h (k, b) (List.mem_of_getElem? hx)
+  have hk : k < numVars inLabels prog := fullLog_inScope inLabels prog outs h (k, b) (List.mem_of_getElem? hx)
   refine ⟨k, b, hk, by simp [nodeVars, hx], by simp [nodeIsSrc, hx], ?_⟩
   intro k' hk' ed hed
-  rw [built_var_adjacency nIn prog outs h k' hk'] at hed
+  rw [built_var_adjacency inLabels prog outs h k' hk'] at hed
   cases hed
   simp only [count_pos, hx, Option.some.injEq, Prod.mk.injEq]
   constructor
@@ -1338,10 +1443,10 @@ theorem node_unique_var_edge (h : WellScoped nIn prog outs) (n : Nat)
 
 /-- the nodes of operator edge `j` are the interval `[nodeBase j, nodeBase (j+1))`, each once -/
 theorem op_edge_nodes (j : Nat) (hj : j < prog.length) (ed : LEdge)
-    (hed : (builtTerm nIn prog outs).hypergraph.adjacency[opEdge nIn prog j]? = some ed) :
+    (hed : (builtTerm inLabels prog outs).hypergraph.adjacency[opEdge inLabels prog j]? = some ed) :
     ed.sources ++ ed.targets =
       List.range' (nodeBase prog j) ((insArgs prog[j]).length + (insRts prog[j]).length) := by
-  rw [(built_op_adjacency nIn prog outs j hj).2] at hed
+  rw [(built_op_adjacency inLabels prog outs j hj).2] at hed
   cases hed
   simp only
   rw [List.range'_append_1]
@@ -1349,13 +1454,13 @@ theorem op_edge_nodes (j : Nat) (hj : j < prog.length) (ed : LEdge)
 /-- every node is incident to at most one operator edge, at most once; the interface nodes are
     incident to none -/
 theorem node_atmost_one_op (n : Nat) (j : Nat) (hj : j < prog.length) (ed : LEdge)
-    (hed : (builtTerm nIn prog outs).hypergraph.adjacency[opEdge nIn prog j]? = some ed)
+    (hed : (builtTerm inLabels prog outs).hypergraph.adjacency[opEdge inLabels prog j]? = some ed)
     (hn : n ∈ ed.sources ++ ed.targets) :
     (ed.sources ++ ed.targets).count n = 1 ∧ n < numProgNodes prog ∧
     ∀ j', j' < prog.length → ∀ ed',
-      (builtTerm nIn prog outs).hypergraph.adjacency[opEdge nIn prog j']? = some ed' →
+      (builtTerm inLabels prog outs).hypergraph.adjacency[opEdge inLabels prog j']? = some ed' →
       n ∈ ed'.sources ++ ed'.targets → j' = j := by
-  have h1 := op_edge_nodes nIn prog outs j hj ed hed
+  have h1 := op_edge_nodes inLabels prog outs j hj ed hed
   have hn1 := hn
   rw [h1] at hn1
   have hr := List.mem_range'_1.1 hn1
@@ -1367,7 +1472,7 @@ theorem node_atmost_one_op (n : Nat) (j : Nat) (hj : j < prog.length) (ed : LEdg
   · have hnd : (ed.sources ++ ed.targets).Nodup := by rw [h1]; exact List.nodup_range'
     rw [hnd.count, if_pos hn]
   · intro j' hj' ed' hed' hn'
-    rw [op_edge_nodes nIn prog outs j' hj' ed' hed'] at hn'
+    rw [op_edge_nodes inLabels prog outs j' hj' ed' hed'] at hn'
     have hr' := List.mem_range'_1.1 hn'
     have hs' := nodeBase_succ prog j' hj'
     rcases Nat.lt_trichotomy j' j with hlt | heq | hgt
@@ -1378,14 +1483,14 @@ theorem node_atmost_one_op (n : Nat) (j : Nat) (hj : j < prog.length) (ed : LEdg
       unfold nodeBase at *; omega
 
 /-- all nodes incident to the edge of variable `k` carry the label of `k` -/
-theorem var_edge_uniform (h : WellScoped nIn prog outs) (k : Nat) (hk : k < numVars nIn prog)
-    (ed : LEdge) (hed : (builtTerm nIn prog outs).hypergraph.adjacency[varEdge nIn prog k]? = some ed) :
+theorem var_edge_uniform (h : WellScoped inLabels prog outs) (k : Nat) (hk : k < numVars inLabels prog)
+    (ed : LEdge) (hed : (builtTerm inLabels prog outs).hypergraph.adjacency[varEdge inLabels prog k]? = some ed) :
     ∀ n ∈ ed.sources ++ ed.targets,
-      (builtTerm nIn prog outs).hypergraph.nodes[n]? = some ((varLabels nIn prog).getD k 0) := by
-  rw [built_var_adjacency nIn prog outs h k hk] at hed
+      (builtTerm inLabels prog outs).hypergraph.nodes[n]? = some ((varLabels inLabels prog).getD k 0) := by
+  rw [built_var_adjacency inLabels prog outs h k hk] at hed
   cases hed
   intro n hn
-  have : ∃ b, (fullLog nIn prog outs)[n]? = some (k, b) := by
+  have : ∃ b, (fullLog inLabels prog outs)[n]? = some (k, b) := by
     rcases List.mem_append.1 hn with hn | hn
     · exact ⟨true, (mem_pos_iff _ _ _ _).1 hn⟩
     · exact ⟨false, (mem_pos_iff _ _ _ _).1 hn⟩
@@ -1416,12 +1521,12 @@ theorem progLog_srcVars (vb : Nat) (prog : List VarIns) :
 /-- the source-side nodes, in creation order, are attached to: every result variable, then every
     input variable — each variable exactly once -/
 theorem fullLog_srcVars :
-    ((fullLog nIn prog outs).filter (·.2)).map (·.1) = List.range' nIn (numRes prog) ++ List.range nIn := by
+    ((fullLog inLabels prog outs).filter (·.2)).map (·.1) = List.range' inLabels.length (numRes prog) ++ List.range inLabels.length := by
   have h1 : (outs.map (fun k => (k, false))).filter (·.2) = [] := by
     rw [List.filter_eq_nil_iff]; intro x hx
     obtain ⟨k, _, rfl⟩ := List.mem_map.1 hx; simp
-  have h2 : ((List.range nIn).map (fun k => (k, true))).filter (·.2) =
-      (List.range nIn).map (fun k => (k, true)) := by
+  have h2 : ((List.range inLabels.length).map (fun k => (k, true))).filter (·.2) =
+      (List.range inLabels.length).map (fun k => (k, true)) := by
     rw [List.filter_eq_self]; intro x hx
     obtain ⟨k, _, rfl⟩ := List.mem_map.1 hx; rfl
   simp only [fullLog, List.filter_append, h1, h2, List.append_nil, List.map_append, progLog_srcVars,
@@ -1462,10 +1567,10 @@ theorem pos_length (log : List (Nat × Bool)) (k : Nat) (b : Bool) :
 
 /-- **every variable edge has exactly one source node** (the value produced for the variable: the
     result node of the defining operator, or the interface node of an input) -/
-theorem var_edge_one_source (k : Nat) (hk : k < numVars nIn prog) :
-    (pos (fullLog nIn prog outs) k true).length = 1 := by
+theorem var_edge_one_source (k : Nat) (hk : k < numVars inLabels prog) :
+    (pos (fullLog inLabels prog outs) k true).length = 1 := by
   rw [pos_length, count_src, fullLog_srcVars]
-  have hnd : (List.range' nIn (numRes prog) ++ List.range nIn).Nodup := by
+  have hnd : (List.range' inLabels.length (numRes prog) ++ List.range inLabels.length).Nodup := by
     rw [List.nodup_append]
     refine ⟨List.nodup_range', List.nodup_range, ?_⟩
     intro a ha b hb
@@ -1477,6 +1582,252 @@ theorem var_edge_one_source (k : Nat) (hk : k < numVars nIn prog) :
   unfold numVars at hk
   omega
 
+/-! ### forgetting the variable edges -/
+
+/-- labels of the source / target nodes of edge `e`: the type at which `map_arrow` applies
+    `map_operation` to the edge -/
+def edgeSrcLabels (t : LF) (e : Nat) : List Nat :=
+  ((t.hypergraph.adjacency[e]?).getD ⟨[], []⟩).sources.map (fun n => t.hypergraph.nodes.getD n 0)
+def edgeTgtLabels (t : LF) (e : Nat) : List Nat :=
+  ((t.hypergraph.adjacency[e]?).getD ⟨[], []⟩).targets.map (fun n => t.hypergraph.nodes.getD n 0)
+
+/-- number of uses of variable `k`: as an argument of an instruction or as a declared output -/
+def numUses (inLabels : List Nat) (prog : List VarIns) (outs : List Nat) (k : Nat) : Nat :=
+  (fullLog inLabels prog outs).count (k, false)
+
+/-- the edge of variable `k` has type `[l] → [l, …, l]` (one entry per use), `l` the label of `k` -/
+theorem var_edge_labels (h : WellScoped inLabels prog outs) (k : Nat) (hk : k < numVars inLabels prog) :
+    edgeSrcLabels (builtTerm inLabels prog outs) (varEdge inLabels prog k) = [(varLabels inLabels prog).getD k 0] ∧
+    edgeTgtLabels (builtTerm inLabels prog outs) (varEdge inLabels prog k) =
+      List.replicate (numUses inLabels prog outs k) ((varLabels inLabels prog).getD k 0) := by
+  have hadj := built_var_adjacency inLabels prog outs h k hk
+  have hu := var_edge_uniform inLabels prog outs h k hk _ hadj
+  have hget : ∀ n, n ∈ pos (fullLog inLabels prog outs) k true ++ pos (fullLog inLabels prog outs) k false →
+      (builtTerm inLabels prog outs).hypergraph.nodes.getD n 0 = (varLabels inLabels prog).getD k 0 := by
+    intro n hn
+    rw [List.getD_eq_getElem?_getD, hu n hn]; rfl
+  unfold edgeSrcLabels edgeTgtLabels numUses
+  rw [hadj]
+  simp only [Option.getD_some]
+  constructor
+  · have h1 := var_edge_one_source inLabels prog outs k hk
+    have : List.map (fun n => (builtTerm inLabels prog outs).hypergraph.nodes.getD n 0)
+        (pos (fullLog inLabels prog outs) k true) = List.replicate 1 ((varLabels inLabels prog).getD k 0) := by
+      rw [List.eq_replicate_iff]
+      refine ⟨by simp [h1], ?_⟩
+      intro x hx
+      obtain ⟨n, hn, rfl⟩ := List.mem_map.1 hx
+      exact hget n (List.mem_append_left _ hn)
+    rw [this]; rfl
+  · rw [List.eq_replicate_iff]
+    refine ⟨by simp [pos_length], ?_⟩
+    intro x hx
+    obtain ⟨n, hn, rfl⟩ := List.mem_map.1 hx
+    exact hget n (List.mem_append_right _ hn)
+
+/-- `Forget` replaces the edge of every variable `k` by the one-node spider `1 → 1 ← uses(k)`
+    labelled like `k`.  (The case "no nodes ↦ empty diagram" of `Forget::map_operation` never arises
+    for a built term: every variable edge has its definition node.)  Variable edges are identified
+    by EDGE ID — see the remark below on instructions labelled 99. -/
+theorem forget_replaces_var_edges (h : WellScoped inLabels prog outs) (k : Nat) (hk : k < numVars inLabels prog) :
+    let s := edgeSrcLabels (builtTerm inLabels prog outs) (varEdge inLabels prog k)
+    let t := edgeTgtLabels (builtTerm inLabels prog outs) (varEdge inLabels prog k)
+    (builtTerm inLabels prog outs).hypergraph.edges[varEdge inLabels prog k]? = some 99 ∧
+    Var.allElementsEqual s t = true ∧
+    s.length = 1 ∧ t.length = numUses inLabels prog outs k ∧
+    Var.forgetOperation 99 99 s t =
+      .ok (oneNodeSpider s.length t.length ((varLabels inLabels prog).getD k 0)) := by
+  intro s t
+  obtain ⟨hs, ht⟩ := var_edge_labels inLabels prog outs h k hk
+  have hs' : s = [(varLabels inLabels prog).getD k 0] := hs
+  have ht' : t = List.replicate (numUses inLabels prog outs k) ((varLabels inLabels prog).getD k 0) := ht
+  have hall : ∀ x ∈ s ++ t, x = (varLabels inLabels prog).getD k 0 := by
+    intro x hx
+    rw [hs', ht'] at hx
+    simp only [List.cons_append, List.nil_append, List.mem_cons, List.mem_replicate] at hx
+    rcases hx with rfl | ⟨_, rfl⟩ <;> rfl
+  have hcons : s ++ t = (varLabels inLabels prog).getD k 0 :: t := by rw [hs']; rfl
+  refine ⟨(built_var_edge_label inLabels prog outs h k hk).1, ?_, by rw [hs']; rfl, by rw [ht']; simp, ?_⟩
+  · exact (allElementsEqual_head s t _ _ hcons).2 hall
+  · exact (forgetOperation_cases (99 : Nat) 99 s t).2.1 _ _ rfl hcons hall
+
+theorem nodeVars_of_fullLog {n k : Nat} {b : Bool} (hx : (fullLog inLabels prog outs)[n]? = some (k, b)) :
+    (nodeVars inLabels prog outs)[n]? = some k ∧ (nodeIsSrc inLabels prog outs)[n]? = some b := by
+  simp [nodeVars, nodeIsSrc, hx]
+
+/-- **C19, first clause: the closed form of the term built through the `Var` interface.** -/
+theorem build_shape (h : WellScoped inLabels prog outs) :
+    ∃ t, varBuildProg inLabels prog outs = .ok t ∧ t.wf = true ∧
+      -- edges: one per variable (labelled 99) and one per applied operator, in creation order
+      t.hypergraph.edges = edgeLabels inLabels prog ∧
+      t.hypergraph.edges.length = numVars inLabels prog + prog.length ∧
+      (∀ e, e < t.hypergraph.edges.length →
+        (∃ k, k < numVars inLabels prog ∧ varEdge inLabels prog k = e) ∨
+        (∃ j, j < prog.length ∧ opEdge inLabels prog j = e)) ∧
+      -- nodes: one per use and one per definition, labelled like the variable
+      t.hypergraph.nodes = (nodeVars inLabels prog outs).map (fun k => (varLabels inLabels prog).getD k 0) ∧
+      t.hypergraph.nodes.length = numProgNodes prog + inLabels.length + outs.length ∧
+      -- variable edges
+      (∀ k, k < numVars inLabels prog →
+        t.hypergraph.edges[varEdge inLabels prog k]? = some 99 ∧
+        t.hypergraph.adjacency[varEdge inLabels prog k]? = some
+          ⟨(List.range (nodeVars inLabels prog outs).length).filter (fun n =>
+              decide ((nodeVars inLabels prog outs)[n]? = some k ∧ (nodeIsSrc inLabels prog outs)[n]? = some true)),
+           (List.range (nodeVars inLabels prog outs).length).filter (fun n =>
+              decide ((nodeVars inLabels prog outs)[n]? = some k ∧ (nodeIsSrc inLabels prog outs)[n]? = some false))⟩) ∧
+      -- operator edges
+      (∀ j (hj : j < prog.length),
+        t.hypergraph.edges[opEdge inLabels prog j]? = some (insLabel prog[j]) ∧
+        t.hypergraph.adjacency[opEdge inLabels prog j]? = some
+          ⟨List.range' (nodeBase prog j) (insArgs prog[j]).length,
+           List.range' (nodeBase prog j + (insArgs prog[j]).length) (insRts prog[j]).length⟩) ∧
+      -- wiring: the i-th source of operator j is a use of `args_j[i]`, its r-th target the
+      -- definition of its r-th result
+      (∀ j (hj : j < prog.length) i (hi : i < (insArgs prog[j]).length),
+        (nodeVars inLabels prog outs)[nodeBase prog j + i]? = some (insArgs prog[j])[i] ∧
+        (nodeIsSrc inLabels prog outs)[nodeBase prog j + i]? = some false) ∧
+      (∀ j (hj : j < prog.length) r, r < (insRts prog[j]).length →
+        (nodeVars inLabels prog outs)[nodeBase prog j + (insArgs prog[j]).length + r]? =
+          some (varBase inLabels prog j + r) ∧
+        (nodeIsSrc inLabels prog outs)[nodeBase prog j + (insArgs prog[j]).length + r]? = some true) ∧
+      -- interfaces: the declared inputs and outputs, in order
+      t.sources = List.range' (numProgNodes prog) inLabels.length ∧
+      t.targets = List.range' (numProgNodes prog + inLabels.length) outs.length ∧
+      (∀ k, k < inLabels.length →
+        (nodeVars inLabels prog outs)[numProgNodes prog + k]? = some k ∧
+        (nodeIsSrc inLabels prog outs)[numProgNodes prog + k]? = some true) ∧
+      (∀ i (hi : i < outs.length),
+        (nodeVars inLabels prog outs)[numProgNodes prog + inLabels.length + i]? = some outs[i] ∧
+        (nodeIsSrc inLabels prog outs)[numProgNodes prog + inLabels.length + i]? = some false) ∧
+      -- nothing is identified
+      t.hypergraph.quotient = ([], []) := by
+  obtain ⟨h1, _, h3⟩ := build_eq inLabels prog outs h
+  refine ⟨builtTerm inLabels prog outs, h1, h3, built_edges inLabels prog outs, built_edges_length inLabels prog outs,
+    edge_cover inLabels prog outs, built_nodes inLabels prog outs, built_nodes_length inLabels prog outs, ?_,
+    built_op_adjacency inLabels prog outs, ?_, ?_, built_sources inLabels prog outs, built_targets inLabels prog outs,
+    ?_, ?_, rfl⟩
+  · intro k hk
+    refine ⟨(built_var_edge_label inLabels prog outs h k hk).1, ?_⟩
+    rw [built_var_adjacency inLabels prog outs h k hk, pos_fullLog, pos_fullLog]
+  · intro j hj i hi
+    exact nodeVars_of_fullLog inLabels prog outs (fullLog_arg inLabels prog outs j hj i hi)
+  · intro j hj r hr
+    exact nodeVars_of_fullLog inLabels prog outs (fullLog_res inLabels prog outs j hj r hr)
+  · intro k hk
+    exact nodeVars_of_fullLog inLabels prog outs (fullLog_source inLabels prog outs k hk)
+  · intro i hi
+    exact nodeVars_of_fullLog inLabels prog outs (fullLog_target inLabels prog outs i hi)
+
 end shape
+
+/-! ### the running example -/
+
+section example_
+/-- `x0 : 0`, `x1 : 1` inputs (two different sorts); `x2 := op7(x0, x1) : 5`;
+    `(x3, x4) := op8(x2, x2) : (6, 6)`; outputs `x3, x0` -/
+def exProg : List VarIns := [.op 7 [0, 1] [5], .op 8 [2, 2] [6, 6]]
+
+example : WellScoped [0, 1] exProg [3, 0] := by decide
+example : varLabels [0, 1] exProg = [0, 1, 5, 6, 6] := by decide
+example : edgeLabels [0, 1] exProg = [99, 99, 99, 7, 99, 99, 8] := by decide
+example : varEdges [0, 1] exProg = [0, 1, 2, 4, 5] ∧ opEdge [0, 1] exProg 0 = 3 ∧ opEdge [0, 1] exProg 1 = 6 := by decide
+example : nodeVars [0, 1] exProg [3, 0] = [0, 1, 2, 2, 2, 3, 4, 0, 1, 3, 0] := by decide
+example : nodeIsSrc [0, 1] exProg [3, 0] =
+    [false, false, true, false, false, true, true, true, true, false, false] := by decide
+example : nodeBase exProg 0 = 0 ∧ nodeBase exProg 1 = 3 ∧ numProgNodes exProg = 7 := by decide
+example : builtTerm [0, 1] exProg [3, 0] =
+    ⟨[7, 8], [9, 10],
+      ⟨[0, 1, 5, 5, 5, 6, 6, 0, 1, 6, 0], [99, 99, 99, 7, 99, 99, 8],
+       [⟨[7], [0, 10]⟩, ⟨[8], [1]⟩, ⟨[2], [3, 4]⟩, ⟨[0, 1], [2]⟩, ⟨[5], [9]⟩, ⟨[6], []⟩, ⟨[3, 4], [5, 6]⟩],
+       ([], [])⟩⟩ := by decide
+example : varBuildProg [0, 1] exProg [3, 0] = .ok (builtTerm [0, 1] exProg [3, 0]) := by decide
+/-- variable 2 (label 5, defined by op7, used twice by op8): edge 2 = `[2] → [3, 4]`, forgotten to
+    the spider `1 → 1 ← 2` -/
+example : edgeSrcLabels (builtTerm [0, 1] exProg [3, 0]) (varEdge [0, 1] exProg 2) = [5] ∧
+    edgeTgtLabels (builtTerm [0, 1] exProg [3, 0]) (varEdge [0, 1] exProg 2) = [5, 5] ∧
+    numUses [0, 1] exProg [3, 0] 2 = 2 ∧
+    Var.forgetOperation 99 99 [5] [5, 5] = .ok (oneNodeSpider 1 2 (5 : Nat) : LOHG Nat Nat) := by decide
+/-- an unused variable (x4) still has its definition node: edge 5 = `[6] → []` -/
+example : edgeSrcLabels (builtTerm [0, 1] exProg [3, 0]) (varEdge [0, 1] exProg 4) = [6] ∧
+    edgeTgtLabels (builtTerm [0, 1] exProg [3, 0]) (varEdge [0, 1] exProg 4) = [] := by decide
+
+/-- ill-scoped programs: a forward reference, a self reference and a bad output all panic -/
+example : varBuildProg [0, 1] [.op 7 [0, 3] [5], .op 8 [2] [6]] [] = .panic "var:index" := by decide
+example : varBuildProg [0] [.op 7 [1] [5]] [] = .panic "var:index" := by decide
+example : varBuildProg [0] [] [1] = .panic "var:index" := by decide
+
+/-! **Remark (modelling observation).**  Variable edges must be identified by EDGE ID (`varEdge k`),
+    not by their label: an instruction may itself carry the label 99 (`A::var()`), and the theorems
+    above hold for such programs too (`varEdge_ne_opEdge`).  `Forget::map_operation`, however, looks
+    only at the label and at the uniformity of the type, so an OPERATOR labelled 99 with a uniform
+    type is erased as well.  The Rust code has the same conflation: `HasVar::var()` is an ordinary
+    value of the operation type `A`, and `operation(builder, vars, result_types, op)` accepts any
+    `op : A`, including `A::var()`. -/
+example : WellScoped [0] [.op 99 [0] [0]] [1] ∧
+    (builtTerm [0] [.op 99 [0] [0]] [1]).hypergraph.edges = [99, 99, 99] ∧
+    opEdge [0] [.op 99 [0] [0]] 0 = 2 ∧
+    edgeSrcLabels (builtTerm [0] [.op 99 [0] [0]] [1]) 2 = [0] ∧
+    edgeTgtLabels (builtTerm [0] [.op 99 [0] [0]] [1]) 2 = [0] ∧
+    Var.forgetOperation 99 99 [0] [0] = .ok (oneNodeSpider 1 1 (0 : Nat) : LOHG Nat Nat) := by decide
+
+end example_
+
+/-! ## Part C: the type of a built term, and `forget` applied to it -/
+
+section forget_link
+variable (inLabels : List Nat) (prog : List VarIns) (outs : List Nat)
+
+/-- the boundary type of the built term: the declared input labels `inLabels` (one entry per
+    declared input, in order) and one entry per declared output, labelled like the output variable,
+    in order -/
+theorem built_type (h : WellScoped inLabels prog outs) :
+    (builtTerm inLabels prog outs).source = .ok inLabels ∧
+    (builtTerm inLabels prog outs).target =
+      .ok (outs.map (fun k => (varLabels inLabels prog).getD k 0)) := by
+  obtain ⟨_, _, hwf⟩ := build_eq inLabels prog outs h
+  obtain ⟨hs, ht⟩ := LaxType.source_ok _ hwf
+  have hnodes : (builtTerm inLabels prog outs).hypergraph.nodes =
+      (progLog inLabels.length prog).map (fun x => (varLabels inLabels prog).getD x.1 0) ++
+      ((List.range inLabels.length).map (fun k => (varLabels inLabels prog).getD k 0) ++
+      outs.map (fun k => (varLabels inLabels prog).getD k 0)) := by
+    rw [built_nodes]
+    simp [nodeVars, fullLog, List.map_map, Function.comp_def]
+  have e1 : ((progLog inLabels.length prog).map
+      (fun x => (varLabels inLabels prog).getD x.1 0)).length = numProgNodes prog := by
+    simp [progLog_length]
+  have hin : (List.range inLabels.length).map (fun k => (varLabels inLabels prog).getD k 0) =
+      inLabels := by
+    apply List.ext_getElem (by simp)
+    intro k h1 h2
+    have hk : k < inLabels.length := by simpa using h1
+    simp [varLabels, List.getD_eq_getElem?_getD, List.getElem?_append_left hk,
+      List.getElem?_eq_getElem hk]
+  constructor
+  · rw [hs, built_sources, gatherP_range', hnodes, List.drop_left' e1,
+      List.take_left' (by simp), hin]
+  · rw [ht, built_targets, gatherP_range', hnodes, ← List.append_assoc,
+      List.drop_left' (by simp [progLog_length]), List.take_of_length_le (by simp)]
+
+/-- `forget` (= `Forget.map_arrow`, i.e. lax `define_map_arrow` through the strict representation)
+    applied to a term built through the `Var` interface, for every lawful backend: defined,
+    well-formed, without pending unifications, and of the type of the built term — the declared
+    input labels `inLabels` and the labels of the declared outputs. -/
+theorem forget_built_ok_type (B : Backend) (hB : B.Lawful) (h : WellScoped inLabels prog outs) :
+    ∃ r, LFunctor.mapArrowViaStrict B (C12.forgetL (O := Nat) (99 : Nat)) (builtTerm inLabels prog outs) =
+        .ok r ∧ r.wf = true ∧ r.hypergraph.quotient = ([], []) ∧
+      r.source = .ok inLabels ∧
+      r.target = .ok (outs.map (fun k => (varLabels inLabels prog).getD k 0)) := by
+  obtain ⟨_, _, hwf⟩ := build_eq inLabels prog outs h
+  obtain ⟨hs, ht⟩ := built_type inLabels prog outs h
+  obtain ⟨r, h1, h2, h3, h4, h5⟩ := C12.forget_lax_ok_type B hB (99 : Nat) (builtTerm inLabels prog outs) hwf
+    (LaxType.labelConsistent_of_nopending _ (built_quotient inLabels prog outs))
+  exact ⟨r, h1, h2, h3, by rw [h4, hs], by rw [h5, ht]⟩
+
+/-- on the running example `forget` leaves exactly the two operator edges -/
+example : (LFunctor.mapArrowViaStrict vecBackend (C12.forgetL (O := Nat) (99 : Nat))
+    (builtTerm [0, 1] exProg [3, 0])).bind (fun r => .ok (r.hypergraph.edges, r.source, r.target)) =
+      .ok ([7, 8], .ok [0, 1], .ok [6, 0]) := by decide
+
+end forget_link
 
 end OH.C19
